@@ -33,6 +33,21 @@ EXTRA = [
     "select x from v1 where x > 1 order by x limit 1",
     # DISTINCT ON, non-constant LIMIT, misc
     "select distinct on (a) a, b from t1 order by a, b",
+    "select distinct on (a) a, b from t1 order by a",
+    "select distinct on (a) b from t1 order by a",
+    "select distinct on (a) b + 1, a from t1 order by a desc",
+    "select distinct on (a + 1) a + 1, b from t1 order by a + 1",
+    "select distinct on (a, b) b from t1 order by b, a",
+    "select distinct a, b from t1 order by b desc, a",
+    "select distinct a + b from t1 order by a + b",
+    # a computed column of a derived cross join used in the outer join condition
+    "select s.x, t3.d from (select t1.a + t2.c as x from t1, t2) s, t3 where s.x = t3.a",
+    "select s.x, t3.d from (select t1.a + t2.c as x from t1 join t2 on t1.a = t2.a) s join t3 on s.x = t3.a",
+    "select s.x from (select t1.a + t2.c as x, t1.b as y from t1, t2) s, t3 where s.x = t3.a and s.y > 0",
+    # scalar subqueries over an empty / constant-false input, and as a sort key
+    "select a, (select max(c) from t2 where false) from t1",
+    "select a from t1 order by (select max(c) from t2)",
+    "select a from t1 where b > (select max(c) from t2 where 1 = 0)",
     "select a from t1 limit (select count(*) from t2)",
     "select a from t1 order by a limit 1 + 1",
     "select a from t1 offset 1",
